@@ -342,6 +342,66 @@ func runC12(r *Run) int {
 			}
 		}
 	})
+	// E2. several fields reset at once: a whole group, all base metrics, random pairs and triples
+	r.Parallel(r.Pick(400, 4000), 1, func(w *W, i int) {
+		rng := r.Rng(uint64(i) + 1<<38)
+		v2 := i%2 == 1
+		level := 1 + rng.IntN(2)
+		k := kindOf(v2, level)
+		var s string
+		hasT, hasE := true, true
+		if v2 {
+			v := seed2(rng, level)
+			s = v.String()
+			hasT, hasE = v.HasT, v.HasE
+		} else {
+			v := seed3(rng, level)
+			s = join3("CVSS:"+spec.V3Versions[v.Ver], toks3(&v, level, rng, true))
+		}
+		nf := lib.New(k).NFields()
+		ends := []int{spec.E, spec.CR, spec.N3}
+		if v2 {
+			ends = []int{spec.V2E, spec.V2CDP, spec.N2}
+		}
+		sets := [][]int{}
+		lo := 0
+		for _, hi := range ends {
+			if hi <= nf {
+				var g []int
+				for f := lo; f < hi; f++ {
+					g = append(g, f)
+				}
+				sets = append(sets, g)
+			}
+			lo = hi
+		}
+		for t := 0; t < 4; t++ { // random pairs / triples
+			var g []int
+			for len(g) < 2+t%2 {
+				g = append(g, rng.IntN(nf))
+			}
+			sets = append(sets, g)
+		}
+		for _, g := range sets {
+			o, err, _ := lib.Decode(k, s, false)
+			if err != nil || o.IsNil() {
+				continue
+			}
+			o.Observe()
+			must := false
+			for _, f := range g {
+				if v2 {
+					o.SetField(f, lib.U2[f])
+					must = must || f < spec.V2E || (f < spec.V2CDP && hasT) || (f >= spec.V2CDP && hasE)
+				} else {
+					o.SetField(f, lib.U3[f])
+					must = true
+				}
+			}
+			resets.Add(1)
+			sweep(w, o, decodeCase(k, s, false), fmt.Sprintf("a decoded object whose exported fields %v were all reset to their unknown/invalid values", g), must)
+		}
+	})
 	// F. exported fields holding integers outside the enumeration: observers must not panic (results not judged)
 	r.Parallel(r.Pick(200, 2000), 1, func(w *W, i int) {
 		rng := r.Rng(uint64(i) + 1<<37)
